@@ -68,10 +68,31 @@ func execute(ops []Op) []Out {
 	trees := []*ad.AvlTree{ad.NewAvlTree()}
 	var iters []*ad.AvlIterator
 	outs := make([]Out, 0, len(ops))
-	for _, o := range ops {
-		outs = append(outs, execOne(o, &trees, &iters))
+	for k, o := range ops {
+		r, panicked := safeExecOne(o, &trees, &iters)
+		outs = append(outs, r)
+		if panicked {
+			// the implementation panicked: its state is garbage from here on; mark this and
+			// every remaining step with an outcome the model never produces (checksum < 0)
+			for j := k + 1; j < len(ops); j++ {
+				outs = append(outs, Out{F: false, V: 0, H: -777, L: []int64{}})
+			}
+			break
+		}
 	}
 	return outs
+}
+
+// safeExecOne runs one operation and turns a panic of the implementation into
+// an outcome kind (checksum -777) instead of killing the harness.
+func safeExecOne(o Op, ptrees *[]*ad.AvlTree, piters *[]*ad.AvlIterator) (r Out, panicked bool) {
+	defer func() {
+		if e := recover(); e != nil {
+			r = Out{F: false, V: 0, H: -777, L: []int64{}}
+			panicked = true
+		}
+	}()
+	return execOne(o, ptrees, piters), false
 }
 
 func execOne(o Op, ptrees *[]*ad.AvlTree, piters *[]*ad.AvlIterator) Out {
@@ -117,8 +138,16 @@ func execOne(o Op, ptrees *[]*ad.AvlTree, piters *[]*ad.AvlIterator) Out {
 	case "Elems":
 		r.F = true
 		r.V = height(trees[o.T].Root)
+		// histories hold at most a few hundred keys; an iteration that does not end within
+		// 2000 steps is a runaway (e.g. a cycle through broken parent links): report it as an
+		// outcome kind (flag false, list cut) instead of writing a giant case file
 		guard := 0
-		for it := trees[o.T].Iterator(); it.Ok() && guard < 100000; it.Next() {
+		for it := trees[o.T].Iterator(); it.Ok(); it.Next() {
+			if guard >= 2000 {
+				r.F = false
+				r.L = r.L[:8]
+				break
+			}
 			r.L = append(r.L, int64(it.Get()))
 			guard++
 		}
